@@ -105,6 +105,90 @@ def zero_divisor_witness(it, free=lambda name: True, limit=4000):
     return None
 
 
+UNIT_QUATS = [(0, 0, 0, 1), (1, 0, 0, 0), (0, 1, 0, 0), (0, 0, 1, 0), (0, 0, 0, -1), (Fraction(3, 5), 0, 0, Fraction(4, 5)),
+              (0, Fraction(3, 5), Fraction(4, 5), 0), (Fraction(1, 2),) * 4, (Fraction(1, 2), Fraction(-1, 2), Fraction(1, 2), Fraction(-1, 2)),
+              (Fraction(2, 3), Fraction(1, 3), Fraction(2, 3), 0), (Fraction(-2, 3), Fraction(2, 3), 0, Fraction(1, 3)),
+              (Fraction(2, 7), Fraction(3, 7), Fraction(6, 7), 0), (Fraction(6, 7), 0, Fraction(2, 7), Fraction(-3, 7)),
+              (0, 0, Fraction(-4, 5), Fraction(3, 5))]
+REALS = [Fraction(x) for x in (0, 1, -1, 2, -2, 3)] + [Fraction(1, 2), Fraction(-1, 2), Fraction(3, 5), Fraction(4, 5), Fraction(1, 3), Fraction(2, 3),
+                                                       Fraction(-3, 5), Fraction(5, 13), Fraction(12, 13)]
+
+
+def path_witness(it, diffs, tries=6000):
+    """An exact rational input that satisfies every decision of the current path and at which every comparison that failed on the
+    path (the recorded differences) is non-zero: the failure reported for the path is then the failure at that concrete input.
+    Returns a description of the point, or None (no point found: the path stays undecided)."""
+    import random
+    import re as _re
+    from .interp import base_variables, PI_NAME
+    facts = {k: set(v) for k, v in it.facts.items()}
+    fact_polys = [(Poly(dict(k)), sg) for k, sg in facts.items()]
+    eqs = [p_ for p_, sg in fact_polys if sg == {0}]
+    names = set()
+    for p_, _ in fact_polys:
+        names |= base_variables(p_)
+    for d in diffs:
+        names |= base_variables(d)
+    if PI_NAME in names or len(names) > 60:
+        return None
+    groups, singles, angles = {}, [], []
+    for v in sorted(names):
+        m = _re.fullmatch(r"(.+)\[([3-6])\]", v)
+        if m and poly.R.vidx.get("%s[6]" % m.group(1)) in poly.R.sq_rules and v not in poly.R.angles:
+            groups.setdefault(m.group(1), None)
+        elif v in poly.R.angles:
+            angles.append(v)
+        elif v.startswith(("cos(", "sin(")) or "#" in v:
+            continue
+        else:
+            singles.append(v)
+    eq_vars = set()
+    for e in eqs:
+        eq_vars |= base_variables(e)
+    rnd = random.Random(20261003)
+    trig = [(1, 0), (0, 1), (-1, 0), (0, -1), (Fraction(3, 5), Fraction(4, 5)), (Fraction(-4, 5), Fraction(3, 5))]
+
+    def draw(simple_first):
+        env = {}
+        for g in groups:
+            q = UNIT_QUATS[0] if simple_first and g not in {n.split("[")[0] for n in eq_vars} else rnd.choice(UNIT_QUATS)
+            env.update(zip(["%s[%d]" % (g, i) for i in (3, 4, 5, 6)], map(Fraction, q)))
+        for a in angles:
+            c, s_ = rnd.choice(trig)
+            env["cos(%s)" % a], env["sin(%s)" % a] = Fraction(c), Fraction(s_)
+        for v in singles:
+            env[v] = rnd.choice(REALS)
+        return env
+
+    def sign(x):
+        return (x > 0) - (x < 0)
+    for n in range(tries):
+        env = draw(n < tries // 2)
+        ok = True
+        for e in eqs:
+            val = poly.eval_at(e, env)
+            if val is None or val != 0:
+                ok = False
+                break
+        if not ok:
+            continue
+        for p_, sg in fact_polys:
+            val = poly.eval_at(p_, env)
+            if val is None or sign(val) not in sg:
+                ok = False
+                break
+        if not ok:
+            continue
+        for d in diffs:
+            val = poly.eval_at(d, env)
+            if val is None or val == 0:
+                ok = False
+                break
+        if ok:
+            return ", ".join("%s=%s" % (a, b) for a, b in sorted(env.items()) if "#" not in a and not a.startswith(("cos(", "sin(")) or a[4:-1] in angles)[:400]
+    return None
+
+
 ALLOW_SIZE_THRESHOLDS = False     # second pass of `across_thresholds`: the small side of every threshold is being examined on purpose
 
 
@@ -136,9 +220,24 @@ def run_obligation(pkg, fn, hook=None, max_paths=256, allow_size_thresholds=Fals
                                       "inputs" % thr[0][1])
                 return ("ok", res, True)
             except ObFail as e:
-                return ("fail", e.detail, it.equalities()[1])
-            except PathRaise:
+                simple = it.equalities()[1]
+                detail = e.detail
+                if it.thin and not simple and not getattr(it, "_eq_blocked", False):
+                    w = path_witness(it, getattr(it, "_failed_diffs", []))
+                    if w:
+                        simple, detail = True, "%s [confirmed at the admissible input {%s}]" % (detail, w)
+                return ("fail", detail, simple)
+            except Unsupported as e:
+                if getattr(e, "partial", None) is not None:
+                    e.partial = None         # a nested exploration of the obligation ran out of budget: its partial results are not ours
+                raise
+            except PathRaise as e:
                 it._simple_eq = it.equalities()[1]
+                if it.thin and not it._simple_eq and not getattr(it, "_eq_blocked", False):
+                    w = path_witness(it, [])
+                    if w:
+                        it._simple_eq = True
+                        e.witness = w
                 raise
             finally:
                 CURRENT = None
@@ -148,7 +247,7 @@ def run_obligation(pkg, fn, hook=None, max_paths=256, allow_size_thresholds=Fals
         except Unsupported as e:
             if getattr(e, "partial", None) is None:
                 raise
-            paths, truncated = e.partial, True
+            paths, truncated = e.partial, str(e)
     except LossyOperation as e:
         return dict(status="violation", detail="non-exact operation in formula code: %s" % e, paths=0, stats={}, wall=time.time() - t0)
     except AnalysisError as e:
@@ -173,14 +272,16 @@ def run_obligation(pkg, fn, hook=None, max_paths=256, allow_size_thresholds=Fals
         else:
             stats = p.value[1] or stats
         if msg is not None:
-            simple = p.value[2] if p.raised is None else False
+            simple = p.value[2] if p.raised is None else bool(getattr(p.raised, "witness", None))
+            if p.raised is not None and getattr(p.raised, "witness", None):
+                msg += " [the path is taken at the admissible input {%s}]" % p.raised.witness
             # on a path that only assumes `variable == constant` equalities the comparison was made after substituting them, so a
             # remaining difference is a genuine violation on that (lower-dimensional) set of inputs
             (thin_fails if (p.thin and not simple) else fails).append(msg)
     if fails:
         return dict(status="violation", detail="; ".join(fails)[:4000], paths=len(paths), stats=stats, wall=time.time() - t0)
     if truncated:
-        return dict(status="error", detail="more than %d paths (none of the explored ones fails)" % max_paths, paths=len(paths), stats=stats,
+        return dict(status="error", detail="%s (none of the explored paths fails)" % truncated, paths=len(paths), stats=stats,
                     wall=time.time() - t0)
     if thin_fails:
         # the identity fails only where an exact equality of symbolic values was assumed: a polynomial identity need not hold
@@ -293,6 +394,57 @@ def arr_diff_report(got, exp, limit=3):
 CURRENT = None   # the interpreter of the path being checked (set by run_obligation)
 
 
+_IN_EQ = [False]
+
+
+def _path_equal(a, b):
+    """a == b for every input of the current path: on a path that assumes exact equalities, after substituting them."""
+    it = CURRENT
+    if it is None or not it.thin or _IN_EQ[0]:
+        return False
+    _IN_EQ[0] = True
+    try:
+        key = (len(it.conds), sum(1 for s_ in it.facts.values() if s_ == {0}))
+        cached = getattr(it, "_eq_cache", None)
+        if cached is None or cached[0] != key:
+            cached = (key, it.equalities()[0])
+            it._eq_cache = cached
+        sub = cached[1]
+        d = (a - b).subs(sub) if sub else (a - b)
+        if d.t and sub:
+            d = d.subs(sub)         # a rewriting rule may re-introduce a substituted variable
+        if d.t and getattr(it, "_eq_pending", None):
+            # equalities of the path that no substitution expresses (non-linear ones): look for a certificate d = sum c_i * e_i
+            from . import certificate
+            memo = it.__dict__.setdefault("_cert_memo", {})
+            ck = (key, d.key())
+            if ck not in memo:
+                pend = []
+                for e in it._eq_pending:
+                    e2 = e.subs(sub) if sub else e
+                    pend.append(e2.subs(sub) if sub and e2.t else e2)
+                spent = it.__dict__.get("_cert_seconds", 0.0)
+                if len(d.t) <= 400 and spent < 30.0:
+                    t_c = time.time()
+                    memo[ck] = certificate.vanishes_modulo(d, pend)
+                    it._cert_seconds = spent + time.time() - t_c
+                else:
+                    memo[ck] = False          # (no proof attempted: the comparison stays a failure on a non-simple path = undecided)
+            if memo[ck]:
+                return True
+        if d.t and not it.fn_stack:
+            # a comparison made by the obligation itself (no analysed function is running) that fails on this path
+            rec = it.__dict__.setdefault("_failed_diffs", [])
+            if len(rec) < 400:
+                rec.append(d)
+        return not d.t
+    finally:
+        _IN_EQ[0] = False
+
+
+poly.EQ_HOOK = _path_equal
+
+
 def _on_path(v):
     """Specialise a value to the exact equalities assumed on the current path (var = const substitutions)."""
     it = CURRENT
@@ -301,11 +453,34 @@ def _on_path(v):
     sub, _ = it.equalities()
     if not sub:
         return v
+
+    def sp(x):
+        if not isinstance(x, Poly):
+            return x
+        y = x.subs(sub)
+        return y.subs(sub) if y != x else y         # twice: a rewriting rule may re-introduce a substituted variable
+    if isinstance(v, Pose):
+        return Pose(v.cls, [sp(x) for x in v.data])
     if isinstance(v, Arr):
-        return v.map(lambda x: x.subs(sub) if isinstance(x, Poly) else x)
+        return v.map(sp)
     if isinstance(v, Poly):
-        return v.subs(sub)
+        return sp(v)
     return v
+
+
+def free_increment_columns(names):
+    """Indices of the increment variables that the current path leaves free (see Interp.equalities: a path may be the coordinate
+    subspace d_S = 0; the derivative with respect to d_S is not decided there, the one with respect to the others is)."""
+    it = CURRENT
+    if it is None or not it.thin:
+        return list(range(len(names)))
+    it.equalities()
+    bound = getattr(it, "_eq_bound_generic", set())
+    return [j for j, n in enumerate(names) if n not in bound]
+
+
+def columns(a, cols):
+    return Arr([[r[j] for j in cols] for r in a.data], 2)
 
 
 def require_same(got, exp, what):
@@ -363,17 +538,48 @@ def delta_vec(t, name="d"):
     return sym_vec(name, c, angle_idx=(2,) if t == "PoseSE2" else ())
 
 
-def zero_hook(zero_vars):
-    """Decide comparisons at the point where zero_vars = 0 when the sign there is strict (continuity)."""
+def zero_hook(zero_vars, generic=False):
+    """Decide comparisons at the point where zero_vars = 0 when the sign there is strict (continuity).
+
+    generic=True (derivative obligations: zero_vars is the increment the value is differentiated by): a quantity that depends on
+    the increment and does not vanish identically at increment 0 is non-zero in a punctured neighbourhood of 0 for all operands
+    outside a measure-zero set, so its `== 0` branch does not take part in the derivative -- the identity is then decided for
+    generic operands; what the code does on the exceptional set is a value-level question (C02 / C09).  A remaining exact
+    equality that involves the increment makes a failing path undecided (a formal derivative means nothing there)."""
+    zset = set(zero_vars)
+
+    def depends(d):
+        todo, seen = [d], set()
+        while todo:
+            q = todo.pop()
+            for v in q.variables():
+                if v in seen:
+                    continue
+                seen.add(v)
+                if v in zset or (v.startswith(("cos(", "sin(")) and v[4:-1] in zset):
+                    return True
+                i = poly.var_index(v)
+                if i in poly.R.atom_arg:
+                    todo.append(poly.R.atom_arg[i][1])
+        return False
+
     def hook(d):
+        if generic == "everywhere":
+            # the value is differentiated at a generic point of the operand itself: any non-trivial equality in it is exceptional
+            return {-1, 1} if depends(d) else None
         try:
             v, _ = point_eval(d, zero_vars)
         except Unsupported:
             return None
         c = v.const_value()
         if c is None or c == 0:
+            if generic and c is None and depends(d):
+                return {-1, 1}
             return None
         return 1 if c > 0 else -1
+    if generic:
+        hook.generic_vars = zset
+        hook.depends = depends
     return hook
 
 
